@@ -277,7 +277,7 @@ def _copy_layer_to_x_sparse(
                 dst_grp.create_dataset(
                     el,
                     shape=src_dataset.shape,
-                    chunks=chunks,
+                    chunks=chunks if src_dataset.shape[0] > 0 else None,
                     dtype=dtype)
                 if chunks is None:
                     dst_grp[el] = src_dataset[()]
